@@ -147,7 +147,74 @@ def w_hier(case):
     return {'transitions': 10, 'outcome': tol.rnd(out), 'violations': viol}
 
 
-WORKERS = {'individual': w_individual, 'hierarchical': w_hier,
+HIST_OPS = {
+    'call': None, 'S1': None,
+    'fix_p0': {'p0': 1.3}, 'fix_p1': {'p1': 0.7}, 'fix_sb': {'Sigma base': 0.45},
+    'rel_p0': {'p0': None}, 'swap': {'p0': None, 'p1': 0.9},
+    'fix_all_mech': {'p0': 1.1, 'p1': 0.6}}
+
+
+def w_history(case):
+    """Histories over {call, S1, fix/release ...}; after the history the gradient
+    oracle is applied at the free parameters (first S1, then call)."""
+    viol = []
+    base = case['base']
+    ll = c01.build_likelihood(base)
+    names = ll.get_parameter_names()
+    full = dict(zip(names, base['params']))
+    fixed = {}
+    for op in case['ops']:
+        d = HIST_OPS[op]
+        free = [n for n in names if n not in fixed]
+        x = np.array([full[n] for n in free])
+        if op == 'call':
+            ll(x)
+        elif op == 'S1':
+            ll.evaluateS1(x)
+        else:
+            ll.fix_parameters(dict(d))
+            for k, v in d.items():
+                if v is None:
+                    fixed.pop(k, None)
+                else:
+                    fixed[k] = v
+    free = [n for n in names if n not in fixed]
+    lab = 'history %s' % '>'.join(case['ops'])
+    if list(ll.get_parameter_names()) != free:
+        viol.append({'sub': 'names', 'message': 'free parameter names wrong after '
+                     + lab, 'expected': free,
+                     'observed': list(ll.get_parameter_names())})
+        return {'transitions': len(case['ops']), 'outcome': 'names',
+                'violations': viol}
+    x = np.array([full[n] for n in free])
+    idx = [names.index(n) for n in free]
+    full0 = np.array([fixed.get(n, full[n]) for n in names])
+
+    def ref_f(z):
+        v = np.array(full0, dtype=complex)
+        v[idx] = z
+        return c01.reference(base, v)[0]
+    # S1 first (a plain call would reset the sensitivity switch)
+    s, g = ll.evaluateS1(x.copy())
+    g = np.asarray(g, dtype=float)
+    e = float(np.real(ref_f(x)))
+    if g.shape != (len(free),):
+        viol.append({'sub': 'length', 'message': 'gradient length wrong after '
+                     + lab, 'expected': len(free), 'observed': list(g.shape),
+                     'behaviour': 'hist_len'})
+    else:
+        eg = cstep.grad(ref_f, x)
+        if not tol.close(s, e) or not tol.allclose(g, eg, 1e-7, 1e-8):
+            viol.append({'sub': 'grad', 'message': 'evaluateS1 wrong after ' + lab,
+                         'expected': [e, eg], 'observed': [s, g],
+                         'behaviour': 'hist_grad'})
+    out = check_pair(viol, lab, ll, ll.evaluateS1, x, ref_f, len(free), fd=False)
+    return {'transitions': len(case['ops']) + 6, 'outcome': tol.rnd(out),
+            'violations': viol}
+
+
+WORKERS = {'fix_histories': w_history,
+           'individual': w_individual, 'hierarchical': w_hier,
            'boundary_individual': w_individual, 'boundary_hier': w_hier}
 
 
@@ -235,8 +302,23 @@ def build(tier, seed):
                     c['vec'][pos] = bad
                     c['fd'] = False
                     hb.append(c)
+    # histories of evaluations and fix/release calls (all sequences up to depth d)
+    hbase = c01.make_case(['CM'], [ms[5]], 1, [0], seed)
+    hist = []
+    depth = 3 if tier == 'quick' else 4
+    ops = list(HIST_OPS)
+    for n in range(1, depth + 1):
+        for seq in itertools.product(ops, repeat=n):
+            # at least one fix operation, otherwise the 'individual' part covers it
+            if not any(o not in ('call', 'S1') for o in seq):
+                continue
+            # a history that fixes every parameter leaves nothing to differentiate
+            hist.append({'base': hbase, 'ops': list(seq)})
     return {
         'parts': [
+            Part('fix_histories', hist, w_history,
+                 'all sequences over {call, S1, fix, release} up to depth %d'
+                 % depth),
             Part('individual', ind, w_individual,
                  'LogLikelihood/LogPosterior over error-model assignments, time '
                  'grids, output selections, fixed subsets, priors'),
